@@ -1202,17 +1202,86 @@ Ltac y_chunk i :=
   | apply wf_chunkb_iff; vm_compute; reflexivity | vm_compute; reflexivity
   | apply wf_krecb_ok; vm_compute; reflexivity | apply map_am_of_match ].
 
+Definition y_pairs_list : list (chunkindex * achunk) :=
+  [ (nth 0 y_cis x_ci, ac_of (nth 0 y_chunks (0, x_chunk)));
+    (nth 1 y_cis x_ci, ac_of (nth 1 y_chunks (0, x_chunk)));
+    (nth 2 y_cis x_ci, ac_of (nth 2 y_chunks (0, x_chunk)));
+    (nth 3 y_cis x_ci, ac_of (nth 3 y_chunks (0, x_chunk))) ].
+Example y_pairs_list_eq : y_pairs = y_pairs_list.
+Proof. vm_compute. reflexivity. Qed.
+
 Example y_chunks_ok : forall ci c, In (ci, c) y_pairs -> rendered_chunk_ok x_dall y_F ci c.
 Proof.
-  assert (H : Forall (fun x => rendered_chunk_ok x_dall y_F (fst x) (snd x))
-                [ (nth 0 y_cis x_ci, ac_of (nth 0 y_chunks (0, x_chunk)));
-                  (nth 1 y_cis x_ci, ac_of (nth 1 y_chunks (0, x_chunk)));
-                  (nth 2 y_cis x_ci, ac_of (nth 2 y_chunks (0, x_chunk)));
-                  (nth 3 y_cis x_ci, ac_of (nth 3 y_chunks (0, x_chunk))) ]).
-  { constructor; [|constructor; [|constructor; [|constructor; [|constructor]]]]; cbn [fst snd].
+  assert (H : Forall (fun x => rendered_chunk_ok x_dall y_F (fst x) (snd x)) y_pairs_list).
+  { unfold y_pairs_list.
+    constructor; [|constructor; [|constructor; [|constructor; [|constructor]]]]; cbn [fst snd].
     - y_chunk 2%nat.
     - y_chunk 4%nat.
     - y_chunk 7%nat.
     - y_chunk 10%nat. }
-  intros ci c Hin. rewrite Forall_forall in H. exact (H (ci, c) Hin).
+  intros ci c Hin. rewrite y_pairs_list_eq in Hin. rewrite Forall_forall in H. exact (H (ci, c) Hin).
+Qed.
+
+Lemma ci_match_sub pairs : forall sub, incl sub pairs ->
+  Forall (fun x => ci_start (fst x) = ac_start (snd x) /\ ci_end (fst x) = ac_end (snd x)
+                   /\ ci_offset (fst x) = ac_off (snd x)) sub ->
+  Forall2 (ci_match pairs) (map fst sub) (map snd sub).
+Proof.
+  induction sub as [|[ci c] sub IH]; intros Hi HF; cbn [map]; [constructor|].
+  inversion HF as [|? ? Hx HF']; subst. cbn [fst snd] in *. constructor.
+  - split; [apply Hi; left; reflexivity|exact Hx].
+  - apply IH; [|exact HF']. intros y Hy. apply Hi. right. exact Hy.
+Qed.
+Lemma ci_match_pairs pairs :
+  Forall (fun x => ci_start (fst x) = ac_start (snd x) /\ ci_end (fst x) = ac_end (snd x)
+                   /\ ci_offset (fst x) = ac_off (snd x)) pairs ->
+  Forall2 (ci_match pairs) (map fst pairs) (map snd pairs).
+Proof. apply ci_match_sub. intros y Hy. exact Hy. Qed.
+
+Example y_loader_ok : forall ro sm,
+  loader_ok x_dall ro sm {| fs_data := y_F; fs_fail := None |} (tw_sel (sm_channels sm) ro) y_pairs.
+Proof.
+  intros ro sm. apply C02_loader_ok_rendered_thm; [vm_compute; reflexivity|exact y_chunks_ok].
+Qed.
+
+(* the summary the indexed reader works with, and a complete read in log-time order *)
+Definition y_sm (ro : ropts) : summ :=
+  match parse_summary ds_none {| fs_data := y_F; fs_fail := None |} ro false with Ok sm => sm | _ => empty_summ end.
+Definition y_read (ro : ropts) :=
+  indexed_all x_dall 12 12 ro (y_sm ro) {| fs_data := y_F; fs_fail := None |} (i_init ro y_cis) [] (O, O).
+
+Example y_read_value :
+  match y_read (y_ro [] LogTimeOrder) with
+  | Ok (ms, e, st) => Some (map log_of ms, e, st) | _ => None end = Some ([3; 7; 10; 12], EEOF, (1, 0)%nat) /\
+  match y_read (y_ro [[x75]] ReverseLogTimeOrder) with
+  | Ok (ms, e, st) => Some (map log_of ms, e, st) | _ => None end = Some ([7; 3], EEOF, (1, 0)%nat).
+Proof. vm_compute. split; reflexivity. Qed.
+
+Example y_end_to_end_hyps :
+  let ro := y_ro [] LogTimeOrder in
+  blen y_F < two63 /\
+  (forall ci c, In (ci, c) y_pairs -> rendered_chunk_ok x_dall y_F ci c) /\
+  Forall2 (ci_match y_pairs) y_cis (map snd y_pairs) /\
+  exists ms st, y_read ro = Ok (ms, EEOF, st).
+Proof.
+  intro ro. split; [vm_compute; reflexivity|]. split; [exact y_chunks_ok|]. split.
+  - assert (E : y_cis = map fst y_pairs) by (vm_compute; reflexivity). rewrite E.
+    apply ci_match_pairs. rewrite y_pairs_list_eq. unfold y_pairs_list.
+    repeat (constructor; [vm_compute; repeat split|]). constructor.
+  - destruct y_read_value as [H _]. fold ro in H.
+    destruct (y_read ro) as [[[ms e] st]| | | |]; try discriminate.
+    exists ms, st. inversion H. reflexivity.
+Qed.
+
+Example y_end_to_end_applies :
+  let ro := y_ro [] LogTimeOrder in
+  let sel := tw_sel (sm_channels (y_sm ro)) ro in
+  exists ms st out, y_read ro = Ok (ms, EEOF, st) /\
+    a_read sel LogTimeOrder 12 12 (map snd y_pairs) = Some (out, st) /\ map log_of ms = map am_ts out
+    /\ Permutation out (filter sel (all_msgs (map snd y_pairs))).
+Proof.
+  intros ro sel. destruct y_end_to_end_hyps as (H1 & H2 & H3 & ms & st & H4).
+  destruct (C02_indexed_read_rendered_thm x_dall ro (y_sm ro) y_F y_pairs 12 12 y_cis (map snd y_pairs) ms st H1 H2 H3 H4)
+    as (out & Ha & Hb & Hc).
+  exists ms, st, out. auto.
 Qed.
